@@ -29,6 +29,8 @@
 #include <set>
 #include <sstream>
 
+#include <unistd.h>
+
 using namespace vita;
 
 namespace
@@ -444,6 +446,8 @@ struct runner
   template<class T> void note(const std::string &k, T v)
   { info += (info.empty() ? "" : ",") + k + ":" + std::to_string(v); }
 
+  bool last_ok = true;   // the last result was well-formed (only such results are reused / executed)
+
   static std::string exec(const i_mep &x)
   {
     try { const value_t v(run(x)); (void)v; return "ok"; }
@@ -465,7 +469,8 @@ struct runner
     oracle o{si};
     const bool st = o.random_step(x, si.prob.env.mep.code_length, pl), wf = o.wf(x);
     shape(id, x); note("pl", pl); note("flavour", int(x.verif_crossover_type()));
-    end("random", S(x), wf, st, x.is_valid(), exec(x), true, o.why);
+    end("random", S(x), wf, st, wf && x.is_valid(), wf ? exec(x) : "skipped", true, o.why);
+    last_ok = wf;
     return x;
   }
 
@@ -480,7 +485,8 @@ struct runner
     const bool st = o.mutation_step(a, x, pl, n, pgm == 0.0), wf = o.wf(x);
     shape(id, x); note("pl", pl); note("pgm%", int(pgm * 100)); note("n", n);
     note("trivial", o.changed(a, x) == 0);
-    end("mutation", S(x) + N(n), wf, st, x.is_valid(), exec(x), true, o.why);
+    end("mutation", S(x) + N(n), wf, st, wf && x.is_valid(), wf ? exec(x) : "skipped", true, o.why);
+    last_ok = wf;
     return x;
   }
 
@@ -494,7 +500,8 @@ struct runner
     shape(id, x); note("flavour", int(x.verif_crossover_type()));
     note("forced", l.verif_crossover_type() == r.verif_crossover_type());
     note("trivial", o.changed(l, x) == 0 || o.changed(r, x) == 0);
-    end("crossover", S(x), wf, st, x.is_valid(), exec(x), true, o.why);
+    end("crossover", S(x), wf, st, wf && x.is_valid(), wf ? exec(x) : "skipped", true, o.why);
+    last_ok = wf;
     return x;
   }
 
@@ -506,7 +513,8 @@ struct runner
     const i_mep x(a.get_block(l));
     const bool st = o.getblock_step(a, l, x), wf = o.wf(x);
     shape(id, x); note("trivial", l == a.best());
-    end("getblock", S(x), wf, st, x.is_valid(), exec(x), true, o.why);
+    end("getblock", S(x), wf, st, wf && x.is_valid(), wf ? exec(x) : "skipped", true, o.why);
+    last_ok = wf;
     return x;
   }
 
@@ -520,7 +528,10 @@ struct runner
     const bool st = o.replace_step(a, l, x);
     shape(id, x); note("at_best", at_best); note("trivial", o.changed(a, x) == 0);
     if (expect_ok)
-      end("replace", S(x), wf, st, x.is_valid(), exec(x), true, o.why);
+    {
+      end("replace", S(x), wf, st, wf && x.is_valid(), wf ? exec(x) : "skipped", true, o.why);
+      last_ok = wf;
+    }
     else   // ill-formed on purpose: never validated by vita, never executed
       end("replace", S(x), wf, st, false, "skipped", false, o.why);
     return x;
@@ -534,7 +545,8 @@ struct runner
     const i_mep x(a.destroy_block(idx, si.prob.sset));
     const bool st = o.destroy_step(a, idx, x), wf = o.wf(x);
     shape(id, x); note("trivial", o.changed(a, x) == 0);
-    end("destroy", S(x), wf, st, x.is_valid(), exec(x), true, o.why);
+    end("destroy", S(x), wf, st, wf && x.is_valid(), wf ? exec(x) : "skipped", true, o.why);
+    last_ok = wf;
     return x;
   }
 
@@ -551,7 +563,8 @@ struct runner
         for (unsigned k = 0; k < a[{i, c}].args.size() && k < x[{i, c}].args.size(); ++k)
           red += a[{i, c}].args[k] != x[{i, c}].args[k];
     shape(id, x); note("redirects", red); note("trivial", red == 0);
-    end("cse", S(x), wf, st, x.is_valid(), exec(x), true, o.why);
+    end("cse", S(x), wf, st, wf && x.is_valid(), wf ? exec(x) : "skipped", true, o.why);
+    last_ok = wf;
     return x;
   }
 
@@ -572,7 +585,9 @@ struct runner
     bool st = t.individuals() == k;
     for (const auto &x : t) st = o.random_step(x, si.prob.env.mep.code_length, pl) && st;
     note("set", id); note("rows", si.prob.env.mep.code_length); note("team", k);
-    end("trandom", ST(t), twf(o, t, k), st, t.is_valid(), texec(t), true, o.why);
+    const bool wf = twf(o, t, k);
+    end("trandom", ST(t), wf, st, wf && t.is_valid(), wf ? texec(t) : "skipped", true, o.why);
+    last_ok = wf;
     return t;
   }
 
@@ -594,7 +609,9 @@ struct runner
     }
     if (st && tot != n) { st = false; o.fail("team-mutation-count"); }
     note("set", id); note("rows", a[0].size()); note("team", k); note("n", n); note("trivial", tot == 0);
-    end("tmutation", ST(t) + N(n), twf(o, t, k), st, t.is_valid(), texec(t), true, o.why);
+    const bool wf = twf(o, t, k);
+    end("tmutation", ST(t) + N(n), wf, st, wf && t.is_valid(), wf ? texec(t) : "skipped", true, o.why);
+    last_ok = wf;
     return t;
   }
 
@@ -608,7 +625,9 @@ struct runner
     bool st = t.individuals() == k;
     for (unsigned m = 0; m < k && st; ++m) st = o.cross_step(l[m], r[m], t[m]);
     note("set", id); note("rows", l[0].size()); note("team", k);
-    end("tcrossover", ST(t), twf(o, t, k), st, t.is_valid(), texec(t), true, o.why);
+    const bool wf = twf(o, t, k);
+    end("tcrossover", ST(t), wf, st, wf && t.is_valid(), wf ? texec(t) : "skipped", true, o.why);
+    last_ok = wf;
     return t;
   }
 
@@ -622,13 +641,18 @@ struct runner
     std::vector<i_mep> pool;
     unsigned flav = unsigned(rng.below(4));
 
-    auto add = [&](const i_mep &x) { if (pool.size() < 6) pool.push_back(x); else pool[rng.below(pool.size())] = x; };
+    auto add = [&](const i_mep &x)
+    { if (!last_ok) return; if (pool.size() < 6) pool.push_back(x); else pool[rng.below(pool.size())] = x; };
 
     const unsigned n0 = 2 + unsigned(rng.below(3));
     for (unsigned k = 0; k < n0; ++k)
-      pool.push_back(op_random(id, pl));
+    {
+      const i_mep x(op_random(id, pl));
+      if (last_ok) pool.push_back(x);
+    }
+    if (pool.empty()) return;
 
-    for (unsigned h = 0; h < hist; ++h)
+    for (unsigned h = 0; h < hist && last_ok; ++h)
     {
       const unsigned r = unsigned(rng.below(100));
       const i_mep a(pool[rng.below(pool.size())]);
@@ -692,6 +716,7 @@ struct runner
         else
           continue;
         op_replace(id, a, l, g, false, false);
+        last_ok = true;    // deliberately ill-formed, not reused
       }
     }
   }
@@ -705,8 +730,12 @@ struct runner
     std::vector<team_t> pool;
     unsigned flav = unsigned(rng.below(4));
     for (unsigned j = 0; j < 2; ++j)
-      pool.push_back(op_trandom(id, pl, k));
-    for (unsigned h = 0; h < hist; ++h)
+    {
+      const team_t t(op_trandom(id, pl, k));
+      if (last_ok) pool.push_back(t);
+    }
+    if (pool.empty()) return;
+    for (unsigned h = 0; h < hist && last_ok; ++h)
     {
       const team_t a(pool[rng.below(pool.size())]);
       team_t t;
@@ -728,6 +757,7 @@ struct runner
           }
         t = op_tcrossover(id, team_t(va), team_t(vb));
       }
+      if (!last_ok) break;
       if (pool.size() < 4) pool.push_back(t); else pool[rng.below(pool.size())] = t;
     }
   }
@@ -736,6 +766,8 @@ struct runner
   {
     scenario = k;
     opn = 0;
+    last_ok = true;
+    alarm(90);   // watchdog: an operator that never returns is attributed to its request
     rng = verif::splitmix(seed * 1000003ull + k);
     vita::random::seed(unsigned(rng.next() & 0x7fffffff));
     static const index_t lens[] = {2, 3, 4, 5, 6, 7, 8, 10, 12, 16, 20, 24, 32, 48, 64};
@@ -858,6 +890,8 @@ int main(int argc, char **argv)
       for (unsigned j = 0; j < reps; ++j)
       {
         r.scenario = k; r.opn = j;
+        r.last_ok = true;
+        alarm(90);
         r.rng = verif::splitmix(seed * 7919ull + k * 131ull + j);
         vita::random::seed(unsigned(r.rng.next() & 0x7fffffff));
         try { r.replay_request(line); }
